@@ -92,6 +92,17 @@ def run(ctx, mod, t0):
     # 2. prove: (a) ties of the anchored functions, (b) property modules
     obligations_broken = []
     ties = list(getattr(mod, "TIES", []))
+    # … and of the function sets of the packages those functions live in
+    try:
+        tg = json.load(open(os.path.join(C.VERIF, "extract", "targets.json")))
+        where = {x["name"]: os.path.dirname(x["file"]) for x in tg if not x["func"].startswith("funcs:")}
+        for t in list(ties):
+            if t in where:
+                pk = "pkg_" + (where[t].replace("/", "_") if where[t] else "root")
+                if pk not in ties:
+                    ties.append(pk)
+    except Exception as e:
+        raise C.MachineryError("targets.json: %s" % e)
     out = ""
     if ties:
         rc, out_t = C.lake_build(["FsDb.Tie.Skel", "FsDb.Tie.Tables"])
